@@ -9,6 +9,13 @@ import shutil
 import esrv
 
 PROPS_V = "Props/C17.v"
+# functions the hand-written model of this property was written against (normalised source stored under harness/corr/guards/;
+# a difference is reported as broken-correspondence: the theorems then no longer speak about the current source)
+SOURCE_GUARDS = [
+    ("esr/generation/simplifier.py", "load_subs"),
+    ("esr/generation/simplifier.py", "get_all_dup"),
+]
+
 TRANSLATORS = ["cancel"]
 TRUSTED = [
     "Coq 8.16.1 kernel + vm_compute (no native_compute)",
